@@ -9,7 +9,7 @@ from simkit.draw import Draw
 # module-level function; per-run state lives in CURRENT (one simulation at a time per process).
 CURRENT = None
 
-NAME_POOL = ['alpha', 'beta_x', 'gamma', 'visc', 'period']
+NAME_POOL = ['alpha', 'beta_x', 'gamma', 'visc', 'period', 'n_run_3']   # the last one looks like a run directory once saved as <name>.npy
 
 
 class RunContext:
